@@ -27,20 +27,20 @@ import (
 
 // Packet is one frame in flight on a simulated link (or an EOF marker).
 type Packet struct {
-	ID    uint64 // global send order (diagnostic only)
-	Conn  int    // connection id
-	Dir   int    // 0: a->b, 1: b->a
-	Seq   uint64 // per direction sequence number
-	From  *Link
-	To    *Link
-	Data  []byte
-	Prio  bool
-	EOF   bool
-	Tag   string // set by adversaries: "dup", "mutated", ...
+	ID   uint64 // global send order (diagnostic only)
+	Conn int    // connection id
+	Dir  int    // 0: a->b, 1: b->a
+	Seq  uint64 // per direction sequence number
+	From *Link
+	To   *Link
+	Data []byte
+	Prio bool
+	EOF  bool
+	Tag  string // set by adversaries: "dup", "mutated", ...
 	// NoDelay delivers without letting fake time pass (adversarial injections
 	// whose effect is compared before/after must not race with timers).
 	NoDelay bool
-	SentT time.Time
+	SentT   time.Time
 }
 
 // Crossing is the record of one frame handed to a link by a router.
